@@ -310,6 +310,11 @@ func importBlock(ctx context.Context, cmd *cli.Command) error {
 	}
 	defer client.Close()
 
+	// Every session starts with the PeerInfo exchange; the target serves nothing before it.
+	if _, err := client.Handshake(fuzz.PeerInfo{AppName: "Fuzz-Test"}); err != nil {
+		return fmt.Errorf("error doing handshake: %w", err)
+	}
+
 	data, err := os.ReadFile(jsonFile)
 	if err != nil {
 		return fmt.Errorf("error reading JSON file: %w", err)
@@ -350,6 +355,11 @@ func setState(ctx context.Context, cmd *cli.Command) error {
 		return fmt.Errorf("error creating client: %w", err)
 	}
 	defer client.Close()
+
+	// Every session starts with the PeerInfo exchange; the target serves nothing before it.
+	if _, err := client.Handshake(fuzz.PeerInfo{AppName: "Fuzz-Test"}); err != nil {
+		return fmt.Errorf("error doing handshake: %w", err)
+	}
 
 	data, err := os.ReadFile(jsonFile)
 	if err != nil {
@@ -393,6 +403,11 @@ func getState(ctx context.Context, cmd *cli.Command) error {
 		return fmt.Errorf("error creating client: %w", err)
 	}
 	defer client.Close()
+
+	// Every session starts with the PeerInfo exchange; the target serves nothing before it.
+	if _, err := client.Handshake(fuzz.PeerInfo{AppName: "Fuzz-Test"}); err != nil {
+		return fmt.Errorf("error doing handshake: %w", err)
+	}
 
 	data, err := os.ReadFile(jsonFile)
 	if err != nil {
